@@ -112,6 +112,12 @@ class VSet(V):
         self.n = n
 
 
+class VInstDict(V):
+    """obj.__dict__ of a VInst / VConc: a view on its heap fields"""
+    def __init__(self, inst):
+        self.inst = inst
+
+
 class VDictLit(V):
     """dict with a concrete spine: list of (key V, value V); mutable, lives in heap."""
     def __init__(self, did):
